@@ -728,9 +728,10 @@ def iteration_skips(cfg: CFG, loop: ast.For, pred: Callable[[Node], bool]) -> Op
         w = cfg.path(s, it.id, through)
         if w is not None:
             return w
-        # or out through a break: first node after the loop reached from inside the body without passing the head
+        # or out through a break of THIS loop (a break of a loop nested in the body ends that loop, not the iteration)
+        nested = {id(n) for st in loop.body for lp2 in ast.walk(st) if isinstance(lp2, (ast.For, ast.While)) for b in lp2.body + lp2.orelse for n in ast.walk(b)}
         for x in cfg.nodes:
-            if x.kind == "stmt" and isinstance(x.ast, ast.Break) and id(x.ast) in inside:
+            if x.kind == "stmt" and isinstance(x.ast, ast.Break) and id(x.ast) in inside and id(x.ast) not in nested:
                 w = cfg.path(s, x.id, through | {it.id})
                 if w is not None and x.id not in through:
                     return w
